@@ -2,6 +2,7 @@
 //! and mutating such a file keeps C01-C03.
 
 use super::{CheckDef, Tier};
+use crate::ops::Op;
 use crate::case::{Case, Init, Outcome};
 use crate::disk::SimDisk;
 use crate::driver::{normalise_site, Lib};
@@ -56,7 +57,24 @@ pub fn gen(seed: u64, idx: u64, tier: Tier) -> Case {
         let hi = if rng.chance(1, 4) { 140 } else { 12 };
         plan.extra_fat_sectors = 108 + rng.range(1, hi) as u32;
     }
-    let (max_entries, max_stream) = if idx < ndifat {
+    // the DIFAT exactly full (header slots + k whole DIFAT sectors, k = 1..3) in a SMALL file: the
+    // next FAT sector the library appends has to start DIFAT sector k + 1 and link it to the
+    // END of the chain
+    let difat_boundary = idx >= ndifat && idx % 16 == 9;
+    // (version 4 needs a 4.6 MB file and a 4 MB write for this: one boundary case in 16)
+    let version = if difat_boundary && idx % 256 != 9 { 3 } else { version };
+    if difat_boundary {
+        c.version = version;
+        plan = imgwr::plan_from_seed(rng.next_u64(), version);
+        plan.v3_size_high_garbage = false;
+        plan.library_like_trees = rng.chance(1, 2);
+        let per = if version == 3 { 127 } else { 1023 };
+        plan.extra_fat_sectors = 0;
+        plan.total_fat_sectors = 109 + per * rng.range(1, if version == 3 { 3 } else { 1 }) as u32;
+    }
+    let (max_entries, max_stream) = if difat_boundary {
+        (6, 3000)
+    } else if idx < ndifat {
         plan.min_fat_sectors = 110 + rng.below(3) as u32;
         (10, 20_000)
     } else if rng.chance(1, 8) {
@@ -100,7 +118,18 @@ pub fn gen(seed: u64, idx: u64, tier: Tier) -> Case {
     };
     let n = rng.range(0, 15) as usize;
     let mut g = Gen::new(&mut rng, &cfg, model);
-    c.ops = g.history(n);
+    if difat_boundary {
+        // grow past the next multiple of the FAT sector's capacity (128 / 1024 sectors): the free
+        // sectors of the layout are used up first, then the file is extended
+        let per = if version == 3 { 128u64 * 512 } else { 1024u64 * 4096 };
+        let op = Op::WriteWhole { path: "/grow-past-fat-boundary".into(), len: per + per / 4 + g.rng.below(per / 2), nonce: 9090 };
+        g.model.predict(&op);
+        c.ops.push(op);
+        let more = g.history(n.min(4));
+        c.ops.extend(more);
+    } else {
+        c.ops = g.history(n);
+    }
     c
 }
 
